@@ -1,10 +1,18 @@
 #!/usr/bin/env bash
-# tools/sweep.sh <seeds…> — runs every check's quick tier for each seed; prints one line per run.
+# tools/sweep.sh <seeds…> — runs every check's quick tier for each seed against /repo; prints one line
+# per run. Evidence/replays go to a scratch root (.work/sweeproot) so the committed evidence
+# (seed 0) is not overwritten. Binaries must be built (./check --build).
 cd "$(dirname "${BASH_SOURCE[0]}")/.." || exit 2
+ROOT=$(pwd); SR="$ROOT/.work/sweeproot"
+mkdir -p "$SR/evidence" "$SR/replays"
+cp properties.jsonl known_findings.json "$SR/"; rm -rf "$SR/known_findings.d"; cp -r known_findings.d "$SR/"
+. tools/scale.sh
+PROPS=${SWEEP_PROPS:-"C01 C02 C03 C04 C05 C06 C07 C08 C09 C10 C11 C12 C13 C14 C15 C16 C17 C18 C19 C20"}
 for seed in "$@"; do
-  for p in C01 C02 C03 C04 C05 C06 C07 C08 C09 C10 C11 C12 C13 C14 C15 C16 C17 C18 C19 C20; do
-    start=$(date +%s)
-    VERIF_SEED=$seed ./check $p quick > .work/sweep-$p-$seed.log 2>&1; rc=$?
+  for p in $PROPS; do
+    pkg=$(echo "$p" | tr 'A-Z' 'a-z'); start=$(date +%s)
+    ( cd harness && cargo build --release -p "$pkg" >/dev/null 2>&1 )
+    VERIF_ROOT="$SR" VERIF_SCALE=$(quick_scale "$p") timeout -s KILL 3600 harness/target/release/$pkg --tier quick --seed "$seed" > .work/sweep-$p-$seed.log 2>&1; rc=$?
     echo "seed=$seed $p rc=$rc viol=$(grep -c ^VIOLATION .work/sweep-$p-$seed.log) $(( $(date +%s) - start ))s"
   done
 done
